@@ -10,6 +10,10 @@ CLAIMED = {
          "Proof: conservation, never-exceeds-limit, fails-iff-does-not-fit and budget-restored are Lean theorems over all histories of the modelled tracker; the model is tied to jxl-grid by running both on seeded histories. Partial: that the decoder drops every handle on every error path is exercised by a limit sweep (testing), not proved.",
          "Trusted: Lean kernel, axioms propext/Classical.choice/Quot.sound, the correspondence harness, usize=64 bit, atomics linearizable. NoWrap side condition on expand_limit.",
          "DESIGN.md §4 C13"),
+ "C03": ("Lean 4 theorems (token-level decode∘encode = id for every tree/leaf selection/predictor state; RCT and squeeze inverse∘forward in exact arithmetic) + Lean reference encoder whose streams the real decoder must decode to the original samples + decoder-model correspondence",
+         "Proof for the modelled core: C03_token_roundtrip quantifies over every leaf-selection function, predictor state, previous-channel set and sample list; C03_rct_inv_fwd over all types/permutations; C03_squeeze_line_inv_fwd over every tendency function. Partial: flattened-tree = tree (incl. table compilation), predictor-state = grid neighbours, palette and the group partition are tied to the code by the differential run only; entropy coding is C04's.",
+         "Trusted: Lean kernel + standard axioms; the reference encoder's bit-level serialisation (validated by the real decoder accepting and reproducing every image); harness. Independence of the encoder is of definition (Spec leaf selection / forward transforms), not authorship.",
+         "DESIGN.md §4 C03"),
 }
 NOT_YET = "machinery for this property is not built yet in this snapshot (planned, see DESIGN.md §4/§10); it is claimed as soon as its theorems and correspondence check land"
 
